@@ -7,6 +7,13 @@ specs/WireStrict.tla   strict decoder of the length-prefixed / nested / array fo
                        + the circuit tables as state (RemoveTun / Tick / Sweep: relay routes and rendezvous links
                        are installed in pairs and removed one by one) and the exit socket's own receive path
                        (ExitReceive: DataChecker / is_allowed / tunnel_data) - Receive_tables.cfg
+                       + the registrations as history (Mode "reg" of ReceiveMC.tla): every sequence of add_listener /
+                       add_prefix_listener / remove_listener / open-close over two overlays that share a prefix, a
+                       third overlay and a sink; RegistryServed (the table serves whoever asked, for every prefix),
+                       OnlyRemoveUnregisters; deviations "evict" / "prune" as negative controls
+binding R              TLC's graph of the table operations is replayed edge by edge into a real UDPEndpoint with real
+                       Community objects (harness/c03_reg.py); tables compared after every operation; every small
+                       datagram delivered in every table state, logged and validated by ReceiveTrace.tla
 binding T              real overlays on a real UDPEndpoint (recording transport) are fed through
                        UDPEndpoint.datagram_received; every table operation and every delivery is logged and
                        TLC validates the log against Receive.tla with the real constants (ReceiveTrace.tla);
@@ -521,6 +528,10 @@ class Rx:
                 desc = ("notify_listeners lets %s escape to the transport for a %d-byte datagram %s (%d such deliveries); "
                         "listeners after the failing one are not served" % (ev.get("x"), ev["len"], ev.get("hex", "")[:80],
                                                                              len(items)))
+            elif why == "evicted":
+                desc = ("after %s a listener that asked for a prefix (or for everything) and has not left is no longer "
+                        "in the table: it gets no datagram any more; table left: %s" % (
+                            ev["op"], {"listeners": ev.get("glob"), "prefix_map": [e["ls"] for e in ev.get("pmap", [])]}))
             elif why == "unserved":
                 desc = "a listener registered for the prefix was not called for a %d-byte datagram" % ev["len"]
             elif why == "isolation":
@@ -529,6 +540,10 @@ class Rx:
                 desc = "listener table diverges from Receive.tla after %s" % ev["op"]
             rep = {"kind": "recv", "chain": seg["chain"], "overlays": seg["overlays"],
                    "event": {k: v for k, v in ev.items() if k != "head"}, "count": len(items)}
+            if seg.get("reg"):
+                k = seg["events"].index(ev)
+                rep = {"kind": "reg", "history": [e["m"] for e in seg["events"][:k + 1] if "m" in e],
+                       "event": {k: v for k, v in ev.items() if k != "head"}, "count": len(items)}
             if "family" in seg:
                 # the table actions that led to the state in which the datagram arrived
                 k = seg["events"].index(ev)
@@ -725,12 +740,16 @@ class SpecRuns:
              self.go("ReceiveMC.tla", "Receive_layout.cfg" if quick else "Receive_layout_deep.cfg", workers=big)),
             ("receive_tables", {"DoRemoveTun", "DoTick", "DoSweep", "TReceive", "TExitReceive"},
              self.go("ReceiveMC.tla", "Receive_tables.cfg" if quick else "Receive_tables_deep.cfg", workers=small)),
+            ("receive_reg", {"RAdd", "RAddPrefix", "RRemove", "RSetOpen", "RReceive"},
+             self.go("ReceiveMC.tla", "Receive_reg.cfg" if quick else "Receive_reg_deep.cfg", workers=small)),
             ("wirestrict", {"Grow", "Cut"},
              self.go("WireStrictMC.tla", "WireStrict_mc_quick.cfg" if quick else "WireStrict_mc.cfg", workers=big,
                      java_opts=xss))]
         self.witness = [
             ("Receive_witness: no delivery ever reaches a circuit handler", "NeverCircuitHandler",
              self.go("ReceiveMC.tla", "Receive_witness.cfg", coverage=False, workers=small)),
+            ("Receive_reg_witness: no two overlays ever share a prefix", "NeverShared",
+             self.go("ReceiveMC.tla", "Receive_reg_witness.cfg", coverage=False, workers=small)),
             ("WireStrict_witness: the strict decoder never accepts anything", "SometimesOk",
              self.go("WireStrictMC.tla", "WireStrict_witness.cfg", coverage=False, workers=small, java_opts=xss))]
         # one -continue run of the tables instance with the deviations switched on ({"pair", "exit"} and {"rdv"} as two
@@ -745,6 +764,18 @@ class SpecRuns:
              "violates Total after Tick / Sweep", "TotalRdv"),
             ("Receive.tla with DataChecker reading the second tracker field unchecked (\"exit\") violates Total",
              "TotalExit")]
+        # the deviations of the table operations
+        self.reg_ctl = [
+            ("Receive.tla with add_prefix_listener rebuilding the entry of a registered prefix (\"evict\") violates "
+             "RegistryServed", "RegistryServed",
+             self.go("ReceiveMC.tla", "Receive_reg_evict.cfg", coverage=False, workers=small)),
+            ("Receive.tla with \"evict\" violates AllListenersServed (the first overlay of a shared prefix gets no "
+             "datagram)", "AllListenersServed",
+             self.go("ReceiveMC.tla", "Receive_reg_evict_served.cfg", coverage=False, workers=small)),
+            ("Receive.tla with remove_listener dropping every entry the listener was part of (\"prune\") violates "
+             "RegistryServed", "RegistryServed",
+             self.go("ReceiveMC.tla", "Receive_reg_prune.cfg", coverage=False, workers=small))]
+        self.graph = self.pool.submit(RG_graph, tier)
         self.controls = [
             ("Receive.tla with the pinned unchecked reads violates Total", "Total",
              self.go("ReceiveMC.tla", "Receive_pinned.cfg", coverage=False, workers=small)),
@@ -778,10 +809,69 @@ class SpecRuns:
                                  % sorted(self.ctl_witness - got))
         for what, inv in self.ctl_controls:
             ctx.control(what, inv in got)
-        for what, inv, fut in self.controls:
+        for what, inv, fut in self.reg_ctl + self.controls:
             ctx.control(what, fut.result().violated == inv)
         self.pool.shutdown()
         ctx.cov["exhaustive"] = True
+
+
+def RG_graph(tier):
+    from .. import c03_reg
+    return c03_reg.graph(tier)
+
+
+def registrations(ctx, rx, specs, tier, seed):
+    """binding R + T of the registrations: TLC's graph of table operations on a real endpoint"""
+    from .. import c03_reg as RG
+    t0 = time.perf_counter()
+    reg = RG.Reg(rx.loop)
+    r, g = specs.graph.result()
+    ctx.add_tlc("receive_reg_graph", r)
+    reg.check_model(g)
+    segs, finds, n = reg.replay(g, RG.REG_HEADS, seed)
+    groups = {}
+    for kind, op, detail in finds:
+        groups.setdefault("registry:%s:%s" % (kind, op), []).append(detail)
+    for sig, items in sorted(groups.items()):
+        d = min(items, key=lambda x: len(x["history"]))
+        kind, op = sig.split(":")[1:]
+        if kind == "evicted":
+            what = ("after %s listener(s) %s that asked for a prefix / for everything and did not leave are no longer "
+                    "served by the endpoint's table" % (d["history"], d["not_served"]))
+        elif kind == "raised":
+            what = "the table operation %s raised %s after %s" % (d["op"], d["x"], d["history"])
+        else:
+            what = "the endpoint's table differs from Receive.tla after %s: %s, specified %s" % (
+                d["history"], d["impl"], d["spec"])
+        ctx.violation(sig, "%s (%d such walks of the table-operation graph)" % (what, len(items)),
+                      dict(d, kind="reg", count=len(items)))
+    if not finds:
+        if n["edges"] != len(g.edges) or n["table_states"] != len(g.states):
+            raise MachineryError("the replay covered %d of %d edges, %d of %d states of the registration graph" % (
+                n["edges"], len(g.edges), n["table_states"], len(g.states)))
+        if not n["shared_prefix_states"]:
+            raise MachineryError("no table state with two registrations on one prefix (vacuous)")
+    # negative controls of the binding: the same graph on endpoints with a broken table operation
+    from ipv8.messaging.interfaces.udp.endpoint import UDPEndpoint
+    for what, cls in (("replay of the registration graph into an endpoint whose add_prefix_listener rebuilds the entry "
+                       "of a registered prefix is rejected (evicted)", RG.evicting(UDPEndpoint)),
+                      ("replay of the registration graph into an endpoint whose remove_listener drops every entry the "
+                       "listener was part of is rejected (evicted)", RG.pruning(UDPEndpoint))):
+        _s, bad, _n = reg.replay(g, RG.REG_HEADS, seed, endpoint_cls=cls, deliver=False)
+        if not finds:
+            ctx.control(what, any(k == "evicted" for k, _o, _d in bad))
+    n["wall_s"] = round(time.perf_counter() - t0, 2)
+    ctx.note("registrations_replay", n)
+    ctx.evaluated(n["ops"])
+    for sg in segs:
+        for ev in sg["events"]:
+            if ev["op"] == "recv":
+                ctx.nontrivial(("reg", tuple(map(tuple, (e["m"] for e in sg["events"] if "m" in e))), tuple(ev["head"])))
+    rx.reg_segments = segs
+    rx.n_recv += n["deliveries"]
+    if segs:
+        rx.jobs.append((segs, specs.pool.submit(rx.tlc_validate, segs)))
+    return n
 
 
 def trace_controls(rx, dx, pool):
@@ -879,6 +969,25 @@ def trace_controls(rx, dx, pool):
     bad["events"][found[1]]["raised"] = True
     bad["events"][found[1]]["log"] = [dict(bad["events"][found[1]]["log"][0], rel=0, raised=True)]
     batch.append(("trace in which a cell for a relay route whose opposite route was removed raises is rejected", bad))
+    # (9) registrations: a second registration on a prefix after which the first one is gone from the entry
+    found = None
+    for sg in getattr(rx, "reg_segments", ()):
+        for i, e in enumerate(sg["events"]):
+            if e["op"] == "addp":
+                ent = next(x for x in e["pmap"] if x["p"] == e["p"])
+                if len(ent["ls"]) >= 2 and ent["ls"][0] != e["l"] and ent["ls"][0] not in e["glob"]:
+                    found = (sg, i)
+                    break
+        if found:
+            break
+    if found:
+        bad = cut(*found)
+        e = bad["events"][found[1]]
+        ent = next(x for x in e["pmap"] if x["p"] == e["p"])
+        ent["ls"] = [e["l"]] + [x for x in ent["ls"][1:] if x != e["l"]]
+        batch.append(("trace in which a second add_prefix_listener on a prefix evicts the first overlay is rejected", bad))
+    elif getattr(rx, "reg_segments", None):
+        raise MachineryError("no second registration on a prefix recorded: control impossible")
     # (4, 5) decodes: an over-read accepted, a part that has not its declared length
     X, w = dx.X, dx.wire
     items = w.items_of(["varlenH", "raw"])
@@ -914,6 +1023,20 @@ def do_replay(path):
         return 1 if new["ok"] else 0
     ctx = Ctx(PID, "quick", 0, "model_checking")
     rx = Rx(ctx, "quick", 0)
+    if rep["kind"] == "reg":
+        from .. import c03_reg as RG
+        reg = RG.Reg(rx.loop)
+        ep = reg.fresh()
+        for name, args in rep["history"]:
+            reg.apply(ep, name, args)
+        real = RG._show(reg.table(ep))
+        print("replayed %s: table %s%s" % (rep["history"], real, "; specified %s" % rep["spec"] if "spec" in rep else ""))
+        bad = "spec" in rep and real != rep["spec"]
+        if "hex" in rep.get("event", {}) or rep.get("event", {}).get("op") == "recv":
+            ev = reg.recv(ep, bytes.fromhex(rep["event"]["hex"])) if "hex" in rep["event"] else None
+            print("replayed delivery: %s" % ({k: v for k, v in (ev or {}).items() if k != "head"},))
+            bad = bad or bool(ev and (ev["raised"] or any(r["raised"] for r in ev["log"])))
+        return 1 if bad or "spec" not in rep else 0
     names = [n for n in rep["overlays"] if n.split("+")[0] in rx.W.OVERLAYS] or ["PlainCommunity", "TunnelCommunity"]
     if rep.get("family"):
         # the state in which the datagram arrived is the result of the family's table actions: run them again
@@ -953,7 +1076,10 @@ def run(tier, seed, replay=None):
                        "cell batteries in every table state, exit-socket datagrams of all lengths 0..40 x 13 shapes, "
                        "seeded samples <= 1500 bytes, and every truncation / length edit of valid encodings of every "
                        "Serializable; each delivery / decode is one TLC-validated event; non-trivial = distinct "
-                       "accepted decodes + distinct (world, datagram) deliveries")
+                       "accepted decodes + distinct (world, datagram) deliveries; (d) registrations: every sequence of "
+                       "3/4 add_listener / add_prefix_listener / remove_listener / open-close operations over two "
+                       "overlays sharing a prefix, a third overlay and a sink - every edge of TLC's graph executed on a "
+                       "real UDPEndpoint, 11 datagrams in every table state")
     ctx.assumptions += ["the set of message ids with a handler is read from the overlay's own registration tables "
                         "(decode_map / decode_map_private); dispatch on them is what is checked",
                         "AEAD of ipv8_rust_tunnels is trusted: a cell sealed by the harness with the far end's keys "
@@ -1020,6 +1146,9 @@ def run(tier, seed, replay=None):
                 ctx.nontrivial(("hx", chain, tuple(names), family, ev["op"], ev["len"], tuple(ev["head"]),
                                 ev.get("enc"), ev.get("fam")))
     rx.history_vacuity()
+    # ---------------- registrations: TLC's graph of table operations replayed into a real endpoint
+    registrations(ctx, rx, specs, tier, seed)
+    rx.apply_done("receive_trace")
     from ..vloop import uninstall
     uninstall()                      # wall clock back (Ctx measures real time)
 
@@ -1031,7 +1160,7 @@ def run(tier, seed, replay=None):
 
     ok_rx = rx.apply_all("receive_trace")
     ctx.evaluated(rx.n_recv)
-    ctx.traces(len(rx.segments))
+    ctx.traces(len(rx.segments) + len(getattr(rx, "reg_segments", ())))
     ok_dx = dx.apply_all("decode_trace")
     ctx.evaluated(len(dx.events) + dx.rejected)
     ctx.traces(len(dx.jobs))
